@@ -977,7 +977,16 @@ func (ex *Exec) step(c *ctx, in ssa.Instruction, work *[]*ctx, outs *[]Outcome) 
 			if !ex.oblige(st, tt.Ult(idx, xv.len), "bounds", ex.pos(x), c.fn.String(), "index out of range") {
 				return false
 			}
-			ex.set(c, x, elemPtr(xv, tt.Add(xv.off, idx)))
+			abs := tt.Add(xv.off, idx)
+			if !abs.IsConst() && !isScalarT(x.Type().(*types.Pointer).Elem()) {
+				// elements are not scalars (structs, slices, interfaces): split on the index
+				var alts []alt
+				for _, r := range ex.enumerate(st, abs, 64) {
+					alts = append(alts, alt{r.st, elemPtr(xv, tt.BV(r.v, 64))})
+				}
+				return ex.continueMulti(c, x, alts, work)
+			}
+			ex.set(c, x, elemPtr(xv, abs))
 		case Ptr:
 			if !ex.nilCheck(c, x, xv) {
 				return false
@@ -985,6 +994,14 @@ func (ex *Exec) step(c *ctx, in ssa.Instruction, work *[]*ctx, outs *[]Outcome) 
 			n := x.X.Type().Underlying().(*types.Pointer).Elem().Underlying().(*types.Array).Len()
 			if !ex.oblige(st, tt.Ult(idx, tt.BV(uint64(n), 64)), "bounds", ex.pos(x), c.fn.String(), "array index out of range") {
 				return false
+			}
+			if !idx.IsConst() && !isScalarT(x.Type().(*types.Pointer).Elem()) {
+				var alts []alt
+				for _, r := range ex.enumerate(st, idx, 64) {
+					np := append(append([]PE(nil), xv.path...), PE{idx: tt.BV(r.v, 64)})
+					alts = append(alts, alt{r.st, Ptr{xv.obj, np}})
+				}
+				return ex.continueMulti(c, x, alts, work)
 			}
 			np := append(append([]PE(nil), xv.path...), PE{idx: idx})
 			ex.set(c, x, Ptr{xv.obj, np})
@@ -1332,3 +1349,8 @@ func (ex *Exec) runInit(pkg *ssa.Package) {
 }
 
 var _ = math.Inf
+
+func isScalarT(t types.Type) bool {
+	b, ok := t.Underlying().(*types.Basic)
+	return ok && b.Info()&types.IsString == 0
+}
